@@ -164,9 +164,9 @@ Proof.
   - assumption.
 Qed.
 
-Lemma R_env_set c a n v : R c a -> R (env_set c n v) (spec_export1 a n v).
+Lemma R_env_set c a n v : R c a -> R (env_set c n v) (spec_setenv1 a n v).
 Proof.
-  intros (R1 & R2 & R3 & R4 & R5). unfold env_set, spec_export1.
+  intros (R1 & R2 & R3 & R4 & R5). unfold env_set, spec_setenv1.
   pose proof (R2 n) as E2.
   unfold R, vget in *; cbn [locals envp cwd prev vars ghost acwd aold].
   split; [|split; [|split; [|split; assumption]]].
@@ -179,6 +179,20 @@ Proof.
       destruct (aget (vars a) n) as [[x [|]]|]; [reflexivity| |].
       * rewrite aget_aset. sdes n m; [congruence|reflexivity].
       * rewrite aget_adel. sdes n m; [congruence|reflexivity].
+  - now apply nodup_aset.
+Qed.
+
+Lemma R_export_set fx c a n v : R c a -> R (export_set fx c n v) (spec_export1 fx a n v).
+Proof.
+  intro HR. unfold export_set, spec_export1. destruct (fx_export fx); [|now apply R_env_set].
+  destruct HR as (R1 & R2 & R3 & R4 & R5).
+  unfold R, vget in *; cbn [locals envp cwd prev vars ghost acwd aold].
+  split; [|split; [|split; [|split; assumption]]].
+  - intro m. rewrite !aget_aset. sdes n m; [reflexivity|apply R1].
+  - intro m. rewrite aget_aset, aget_adel. sdes n m.
+    + now rewrite aget_adel, str_eqb_refl.
+    + rewrite (R2 m). destruct (aget (vars a) m) as [[y [|]]|]; try reflexivity.
+      rewrite aget_adel. sdes n m; [congruence|reflexivity].
   - now apply nodup_aset.
 Qed.
 
@@ -323,8 +337,8 @@ Proof.
 Qed.
 
 (* ------------------------------------------------------------------ export *)
-Lemma export_loop_render w ps : forall c a, R c a -> forallb wf_asg ps = true ->
-  exists c', export_loop w c (map asg_token ps) = (c', true) /\ R c' (spec_export a (map asg_pair ps)).
+Lemma export_loop_render fx w ps : forall c a, R c a -> forallb wf_asg ps = true ->
+  exists c', export_loop fx w c (map asg_token ps) = (c', true) /\ R c' (spec_export fx a (map asg_pair ps)).
 Proof.
   induction ps as [|p r IH]; intros c a HR H; cbn [map export_loop spec_export].
   - exists c. split; [reflexivity|assumption].
@@ -333,7 +347,7 @@ Proof.
     assert (Hne : str_eqb (a_name p ++ c_eq :: quote_val (a_q p) (a_val p)) s_export = false).
     { apply str_eqb_neq. intro E. pose proof (split_env_loose_eq _ _ H1 H2) as S. rewrite E in S. vm_compute in S. discriminate. }
     rewrite Hne. unfold is_env. rewrite (split_env_strict_eq _ _ H1 H2). cbn [negb].
-    rewrite H4. unfold expand_home. rewrite H3. apply IH; [now apply R_env_set|assumption].
+    rewrite H4. unfold expand_home. rewrite H3. apply IH; [now apply R_export_set|assumption].
 Qed.
 
 (* ------------------------------------------------------------------ read *)
@@ -399,6 +413,31 @@ Proof.
       unfold rest_plain. clear. generalize (length r). intro k. induction k; cbn; auto.
 Qed.
 
+Definition fields_n (seps : str) (k : nat) (o : option str) : list str :=
+  match o with Some x => splitn_on seps k x | None => [] end.
+
+Lemma R_read_assign_n seps ns : ns <> [] -> forall c a o, R c a ->
+  R (read_assign c ns (fields_n seps (length ns) o)) (spec_assign a (combine ns (cut_fields seps (length ns) o))).
+Proof.
+  induction ns as [|n r IH]; intros NE c a o HR; [congruence|].
+  destruct r as [|n2 r].
+  - cbn [read_assign length cut_fields combine spec_assign]. destruct o as [x|]; cbn [fields_n splitn_on join_sp]; now apply R_set_env.
+  - cbn [length] in *. change (cut_fields seps (S (S (length r))) o)
+      with (match o with
+            | None => [] :: cut_fields seps (S (length r)) None
+            | Some x => let (f, o') := break_sep seps x in f :: cut_fields seps (S (length r)) o'
+            end).
+    change (read_assign c (n :: n2 :: r) (fields_n seps (S (S (length r))) o))
+      with (read_assign (set_env c n (match fields_n seps (S (S (length r))) o with v :: _ => v | [] => [] end)) (n2 :: r)
+              (tl (fields_n seps (S (S (length r))) o))).
+    destruct o as [x|].
+    + cbn [fields_n]. change (splitn_on seps (S (S (length r))) x)
+        with (let (f, o') := break_sep seps x in f :: fields_n seps (S (length r)) o').
+      destruct (break_sep seps x) as [f o'] eqn:B. cbn [tl combine spec_assign].
+      apply (IH ltac:(discriminate) _ _ o'). now apply R_set_env.
+    + cbn [fields_n tl combine spec_assign]. apply (IH ltac:(discriminate) _ _ None). now apply R_set_env.
+Qed.
+
 Lemma ifs_chars_spec c a envs : R c a ->
   (match aget envs s_IFS, vget a s_IFS with
    | None, Some (ev, true) => match aget (ghost a) s_IFS with Some lv => negb (str_eqb lv ev) | None => false end
@@ -417,6 +456,25 @@ Lemma split_into_fields_eq c line envs :
   split_into_fields c line envs =
   split_on (if is_empty (ifs_chars c envs) then default_seps else ifs_chars c envs) line.
 Proof. unfold split_into_fields. cbv zeta. destruct (is_empty (ifs_chars c envs)); reflexivity. Qed.
+
+Lemma split_into_fields_n_eq c line envs k :
+  split_into_fields_n c line envs k =
+  splitn_on (if is_empty (ifs_chars c envs) then default_seps else ifs_chars c envs) k line.
+Proof. unfold split_into_fields_n. cbv zeta. destruct (is_empty (ifs_chars c envs)); reflexivity. Qed.
+
+Lemma avalues_child inh envs k : NoDup (map fst inh) -> NoDup (map fst envs) ->
+  avalues (child_env inh envs) k = ol (match aget envs k with Some v => Some v | None => aget inh k end).
+Proof.
+  intros H1 H2. unfold child_env. rewrite avalues_app, (avalues_nodup envs) by assumption.
+  assert (F : avalues (filter (fun p => negb (ahas envs (fst p))) inh) k =
+              if ahas envs k then [] else avalues inh k).
+  { clear H1. induction inh as [|[k0 v0] r IH]; cbn [filter avalues fst]; [now destruct (ahas envs k)|].
+    destruct (ahas envs k0) eqn:A0; cbn [negb avalues].
+    - rewrite IH. sdes k0 k; [now rewrite A0|reflexivity].
+    - sdes k0 k; [rewrite A0, IH, A0; reflexivity|exact IH]. }
+  rewrite F. unfold ahas. destruct (aget envs k); cbn [ol app]; [reflexivity|].
+  rewrite app_nil_r. now apply avalues_nodup.
+Qed.
 
 (* ------------------------------------------------------------------ one operation *)
 Lemma valid_ident_unset n : valid_ident n = true -> unset_name_ok n = true.
@@ -444,23 +502,23 @@ Qed.
 Lemma drain_stop x r acc : split_env_loose x = None -> drain (plain x :: r) acc = (acc, plain x :: r).
 Proof. intro H. unfold plain. cbn [drain tag_none]. now rewrite H. Qed.
 
-Definition dispatch (w : world) (c : st) (envs : alist) (x : str) (r : list token) (here : option str) : st * outcome :=
+Definition dispatch (fx : fixes) (w : world) (c : st) (envs : alist) (x : str) (r : list token) (here : option str) : st * outcome :=
   let rest := (TNone, x) :: r in
-  if str_eqb x s_cd then cd_run w c rest
-  else if str_eqb x s_export then let (s', ok) := export_loop w c rest in (s', OStatus ok)
-  else if str_eqb x s_read then read_run c envs rest here
+  if str_eqb x s_cd then cd_run fx w c rest
+  else if str_eqb x s_export then let (s', ok) := export_loop fx w c rest in (s', OStatus ok)
+  else if str_eqb x s_read then read_run fx c envs rest here
   else if str_eqb x s_unset then unset_run c rest
-  else (c, OChild (map snd rest) (envp c ++ envs) (cwd c)).
+  else (c, OChild (map snd rest) (child_env (envp c) envs) (cwd c)).
 
-Lemma run_proc_cmd w c ps x r here : wf_prefix ps = true -> split_env_loose x = None ->
-  run_proc w c (map asg_token ps ++ plain x :: r) here = dispatch w c (map asg_pair ps) x r here.
+Lemma run_proc_cmd fx w c ps x r here : wf_prefix ps = true -> split_env_loose x = None ->
+  run_proc fx w c (map asg_token ps ++ plain x :: r) here = dispatch fx w c (map asg_pair ps) x r here.
 Proof.
   intros H1 H2. unfold run_proc. rewrite (drain_render _ _ H1), (drain_stop _ _ _ H2). reflexivity.
 Qed.
 
-Lemma run_proc_cmd0 w c x r here : split_env_loose x = None ->
-  run_proc w c (plain x :: r) here = dispatch w c [] x r here.
-Proof. intro H. apply (run_proc_cmd w c [] x r here eq_refl H). Qed.
+Lemma run_proc_cmd0 fx w c x r here : split_env_loose x = None ->
+  run_proc fx w c (plain x :: r) here = dispatch fx w c [] x r here.
+Proof. intro H. apply (run_proc_cmd fx w c [] x r here eq_refl H). Qed.
 
 Ltac cd_tail w full c a :=
   destruct (w_exists w full); cbn [negb]; [|first [discriminate | split; [assumption|reflexivity]]];
@@ -469,11 +527,11 @@ Ltac cd_tail w full c a :=
   destruct (w_chdir w d); [|split; [assumption|reflexivity]];
   sdes (acwd a) d; cbn [fst snd]; (split; [|reflexivity]);
   [now apply R_same
-  |apply (R_dirs (env_set c s_PWD d) (spec_export1 a s_PWD d) d (acwd a)); now apply R_env_set].
+  |apply (R_dirs (env_set c s_PWD d) (spec_setenv1 a s_PWD d) d (acwd a)); now apply R_env_set].
 
-Theorem sim_step w c a o : R c a -> wf_op o = true -> known w a o = None ->
-  R (fst (step w c (render o))) (fst (spec_step w a o)) /\
-  obs_ok (snd (spec_step w a o)) (snd (step w c (render o))).
+Theorem sim_step fx w c a o : R c a -> wf_op o = true -> known fx a o = None ->
+  R (fst (step fx w c (render o))) (fst (spec_step fx w a o)) /\
+  obs_ok (snd (spec_step fx w a o)) (snd (step fx w c (render o))).
 Proof.
   intros HR WF K. destruct o as [ps|ps prog args|ps|n|ps names line|arg|n]; cbn [render step spec_step wf_op] in *.
   - (* Assign *)
@@ -482,33 +540,27 @@ Proof.
     split; [now apply R_set_shell_vars|reflexivity].
   - (* Prefixed *)
     apply andb_true_iff in WF as [WF W3]. apply andb_true_iff in WF as [WF W2].
-    destruct (split_env_loose prog) eqn:SP; [discriminate|]. rewrite (run_proc_cmd _ _ _ _ _ _ WF SP). unfold dispatch.
+    destruct (split_env_loose prog) eqn:SP; [discriminate|]. rewrite (run_proc_cmd fx w c ps prog args None WF SP). unfold dispatch.
     unfold is_modelled_builtin in W2. apply negb_true_iff in W2.
     apply orb_false_iff in W2 as [W2 Wu]. apply orb_false_iff in W2 as [W2 Wr]. apply orb_false_iff in W2 as [Wc We].
     rewrite Wc, We, Wr, Wu. cbn [fst snd obs_ok map]. split; [assumption|].
     destruct HR as (R1 & R2 & R3 & R4 & R5). split; [reflexivity|]. split; [now symmetry|].
-    intro m. rewrite avalues_app. rewrite (avalues_nodup (envp c)) by assumption.
-    unfold wf_prefix in WF. apply andb_true_iff in WF as [_ ND]. apply nodupb_NoDup in ND.
-    rewrite (avalues_nodup (map asg_pair ps)) by now rewrite pairs_fst.
-    unfold spec_child. rewrite (R1 m).
-    destruct (aget (map asg_pair ps) m) as [v|] eqn:G.
-    + destruct (aget_pairs_in _ _ _ G) as (p & Hp & <-). cbn [known] in K.
-      destruct (existsb (fun p0 => is_exported a (a_name p0)) ps) eqn:X; [discriminate|].
-      pose proof (existsb_false_forall _ _ X p Hp) as Hx. cbn beta in Hx. unfold is_exported in Hx.
-      destruct (vget a (a_name p)) as [[x [|]]|]; [discriminate|reflexivity|reflexivity].
-    + cbn [ol]. rewrite app_nil_r. destruct (vget a m) as [[x [|]]|]; reflexivity.
+    intro m. unfold wf_prefix in WF. apply andb_true_iff in WF as [_ ND]. apply nodupb_NoDup in ND.
+    rewrite avalues_child; [|assumption|now rewrite pairs_fst].
+    unfold spec_child. rewrite (R1 m). destruct (aget (map asg_pair ps) m); [reflexivity|].
+    destruct (vget a m) as [[x [|]]|]; reflexivity.
   - (* Export *)
     rewrite run_proc_cmd0 by reflexivity. unfold dispatch.
     change (str_eqb s_export s_cd) with false. rewrite str_eqb_refl. cbn iota.
     cbn [export_loop snd]. rewrite str_eqb_refl.
-    destruct (export_loop_render w ps c a HR WF) as (c' & E & HR'). rewrite E. cbn [fst snd]. split; [assumption|reflexivity].
+    destruct (export_loop_render fx w ps c a HR WF) as (c' & E & HR'). rewrite E. cbn [fst snd]. split; [assumption|reflexivity].
   - (* Unset *)
     rewrite run_proc_cmd0 by reflexivity. unfold dispatch, plain.
     change (str_eqb s_unset s_cd) with false. change (str_eqb s_unset s_export) with false.
     change (str_eqb s_unset s_read) with false. rewrite str_eqb_refl. cbn iota. cbn [unset_run].
     destruct (R_remove c a n HR (valid_ident_unset _ WF)) as [E HR']. rewrite E. cbn [fst snd]. split; [assumption|reflexivity].
   - (* Read *)
-    apply andb_true_iff in WF as [WF WN]. rewrite (run_proc_cmd w c ps s_read (map plain names) (Some line) WF eq_refl). unfold dispatch.
+    apply andb_true_iff in WF as [WF WN]. rewrite (run_proc_cmd fx w c ps s_read (map plain names) (Some line) WF eq_refl). unfold dispatch.
     change (str_eqb s_read s_cd) with false. change (str_eqb s_read s_export) with false. rewrite str_eqb_refl. cbn iota.
     unfold read_run. cbn [tl].
     assert (NS : (match map plain names with [] => [s_REPLY] | t :: l => map snd (t :: l) end) = read_names names)
@@ -520,12 +572,17 @@ Proof.
     destruct (match aget pp s_IFS, vget a s_IFS with
               | None, Some (ev, true) => match aget (ghost a) s_IFS with Some lv => negb (str_eqb lv ev) | None => false end
               | _, _ => false end) eqn:SH; [discriminate|].
-    rewrite split_into_fields_eq, (ifs_chars_spec c a pp HR SH).
     unfold spec_read. fold (input_line line).
-    change (split_on (spec_seps a pp) (input_line line)) with (fields_of (spec_seps a pp) (Some (input_line line))).
-    apply R_read_assign; [destruct names; discriminate|assumption|].
-    unfold rest_plain. destruct (rest_after (spec_seps a pp) (length (read_names names)) (Some (input_line line))) as [r|]; [|exact I].
-    apply sep_plain_neg. destruct (existsb _ r); [discriminate|reflexivity].
+    destruct (fx_read fx).
+    + rewrite split_into_fields_n_eq, (ifs_chars_spec c a pp HR SH).
+      change (splitn_on (spec_seps a pp) (length (read_names names)) (input_line line))
+        with (fields_n (spec_seps a pp) (length (read_names names)) (Some (input_line line))).
+      apply R_read_assign_n; [destruct names; discriminate|assumption].
+    + rewrite split_into_fields_eq, (ifs_chars_spec c a pp HR SH).
+      change (split_on (spec_seps a pp) (input_line line)) with (fields_of (spec_seps a pp) (Some (input_line line))).
+      apply R_read_assign; [destruct names; discriminate|assumption|].
+      unfold rest_plain. destruct (rest_after (spec_seps a pp) (length (read_names names)) (Some (input_line line))) as [r|]; [|exact I].
+      apply sep_plain_neg. destruct (existsb _ r); [discriminate|reflexivity].
   - (* Cd *)
     destruct HR as (R1 & R2 & R3 & R4 & R5).
     assert (HR : R c a) by (repeat split; assumption).
@@ -540,23 +597,25 @@ Proof.
         destruct (w_chdir w d); [|split; [assumption|reflexivity]].
         sdes (acwd a) d; cbn [fst snd]; (split; [|reflexivity]).
         -- now apply R_same.
-        -- apply (R_dirs (env_set c s_PWD d) (spec_export1 a s_PWD d) d (acwd a)). now apply R_env_set.
+        -- apply (R_dirs (env_set c s_PWD d) (spec_setenv1 a s_PWD d) d (acwd a)). now apply R_env_set.
       * destruct (starts_with c_slash x).
         -- cd_tail w x c a.
         -- cd_tail w (acwd a ++ c_slash :: x) c a.
     + rewrite run_proc_cmd0 by reflexivity. unfold dispatch, plain. rewrite str_eqb_refl. cbn iota.
       unfold known in K. unfold cd_run, spec_cd. cbn [map snd length N.of_nat Pos.of_succ_nat N.ltb N.compare Pos.compare Pos.compare_cont Nat.eqb].
-      rewrite (R1 s_HOME), R4, R5. unfold cd_target in *.
-      destruct (vget a s_HOME) as [[h [|]]|]; [|discriminate|discriminate].
-      unfold join_path, resolve in *.
+      assert (EL : expand_lookup c s_HOME = match vget a s_HOME with Some (v, _) => Some v | None => None end).
+      { unfold expand_lookup, get_env. rewrite (R1 s_HOME), (R2 s_HOME). destruct (vget a s_HOME) as [[x [|]]|]; reflexivity. }
+      assert (HH : (if fx_cd fx then expand_lookup c s_HOME
+                    else Some match aget (envp c) s_HOME with Some h => h | None => [] end) =
+                   match vget a s_HOME with Some (h, _) => Some h | None => None end).
+      { destruct (fx_cd fx); [exact EL|]. rewrite (R1 s_HOME).
+        destruct (vget a s_HOME) as [[h [|]]|]; [reflexivity|discriminate|discriminate]. }
+      rewrite HH, R4, R5. unfold cd_target. clear HH EL K.
+      destruct (vget a s_HOME) as [[h b]|]; [|split; [assumption|reflexivity]].
+      unfold join_path, resolve.
       destruct (str_eqb h s_dash).
       * destruct (is_empty (aold a)); [split; [assumption|reflexivity]|].
-        destruct (w_exists w (aold a)); [|discriminate]. cbn [negb].
-        destruct (w_canon w (aold a)) as [d|]; [|split; [assumption|reflexivity]].
-        destruct (w_chdir w d); [|split; [assumption|reflexivity]].
-        sdes (acwd a) d; cbn [fst snd]; (split; [|reflexivity]).
-        -- now apply R_same.
-        -- apply (R_dirs (env_set c s_PWD d) (spec_export1 a s_PWD d) d (acwd a)). now apply R_env_set.
+        cd_tail w (aold a) c a.
       * destruct (starts_with c_slash h).
         -- cd_tail w h c a.
         -- cd_tail w (acwd a ++ c_slash :: h) c a.
@@ -567,18 +626,18 @@ Proof.
 Qed.
 
 (* ------------------------------------------------------------------ histories *)
-Theorem sim_hist w : forall ops c a, R c a -> forallb wf_op ops = true -> known_hist w a ops = false ->
-  R (fst (run_hist w c (map render ops))) (fst (spec_hist w a ops)) /\
-  Forall2 obs_ok (snd (spec_hist w a ops)) (snd (run_hist w c (map render ops))).
+Theorem sim_hist fx w : forall ops c a, R c a -> forallb wf_op ops = true -> known_hist fx w a ops = false ->
+  R (fst (run_hist fx w c (map render ops))) (fst (spec_hist fx w a ops)) /\
+  Forall2 obs_ok (snd (spec_hist fx w a ops)) (snd (run_hist fx w c (map render ops))).
 Proof.
   induction ops as [|o r IH]; intros c a HR WF K; cbn [map run_hist spec_hist known_hist forallb] in *.
   - split; [assumption|constructor].
   - apply andb_true_iff in WF as [W1 W2]. apply orb_false_iff in K as [K1 K2].
-    unfold is_known in K1. destruct (known w a o) eqn:Kn; [discriminate|].
-    destruct (sim_step w c a o HR W1 Kn) as [HR' HO].
-    destruct (step w c (render o)) as [c1 out]. destruct (spec_step w a o) as [a1 so]. cbn [fst snd] in *.
+    unfold is_known in K1. destruct (known fx a o) eqn:Kn; [discriminate|].
+    destruct (sim_step fx w c a o HR W1 Kn) as [HR' HO].
+    destruct (step fx w c (render o)) as [c1 out]. destruct (spec_step fx w a o) as [a1 so]. cbn [fst snd] in *.
     specialize (IH c1 a1 HR' W2 K2).
-    destruct (run_hist w c1 (map render r)) as [c2 outs]. destruct (spec_hist w a1 r) as [a2 sos]. cbn [fst snd] in *.
+    destruct (run_hist fx w c1 (map render r)) as [c2 outs]. destruct (spec_hist fx w a1 r) as [a2 sos]. cbn [fst snd] in *.
     destruct out; try (destruct IH as [I1 I2]; split; [assumption|constructor; assumption]).
     destruct so; contradiction.
 Qed.
@@ -590,10 +649,143 @@ Proof.
   destruct n; [assumption|]. apply IH. lia.
 Qed.
 
-Theorem partial_from_abs w c ops : NoDup (map fst (envp c)) -> forallb wf_op ops = true ->
-  known_hist w (abs c) ops = false ->
-  Forall2 obs_ok (snd (spec_hist w (abs c) ops)) (snd (run_hist w c (map render ops))) /\
-  R (fst (run_hist w c (map render ops))) (fst (spec_hist w (abs c) ops)).
+Theorem partial_from_abs fx w c ops : NoDup (map fst (envp c)) -> forallb wf_op ops = true ->
+  known_hist fx w (abs c) ops = false ->
+  Forall2 obs_ok (snd (spec_hist fx w (abs c) ops)) (snd (run_hist fx w c (map render ops))) /\
+  R (fst (run_hist fx w c (map render ops))) (fst (spec_hist fx w (abs c) ops)).
 Proof.
-  intros H1 H2 H3. destruct (sim_hist w ops c (abs c) (R_abs c H1) H2 H3) as [A B]. split; assumption.
+  intros H1 H2 H3. destruct (sim_hist fx w ops c (abs c) (R_abs c H1) H2 H3) as [A B]. split; assumption.
+Qed.
+
+(* ------------------------------------------------------------------ $PWD follows the working directory *)
+Definition pwd_ok (a : ast) : Prop := vget a s_PWD = Some (acwd a, true).
+
+Lemma existsb_map_eq {A B} (f : B -> bool) (g : A -> B) l : existsb f (map g l) = existsb (fun x => f (g x)) l.
+Proof. induction l; cbn; congruence. Qed.
+
+Lemma spec_assign_keep ps : forall a n, existsb (fun p => str_eqb (fst p) n) ps = false ->
+  vget (spec_assign a ps) n = vget a n /\ acwd (spec_assign a ps) = acwd a.
+Proof.
+  induction ps as [|[m v] r IH]; intros a n H; cbn [spec_assign]; [split; reflexivity|].
+  cbn [existsb fst] in H. apply orb_false_iff in H as [H1 H2].
+  destruct (IH (spec_assign1 a m v) n H2) as [E1 E2]. rewrite E1, E2. split; [|reflexivity].
+  unfold spec_assign1, vget; cbn [vars]. now rewrite aget_aset, H1.
+Qed.
+
+Lemma spec_export_keep fx ps : forall a n, existsb (fun p => str_eqb (fst p) n) ps = false ->
+  vget (spec_export fx a ps) n = vget a n /\ acwd (spec_export fx a ps) = acwd a.
+Proof.
+  induction ps as [|[m v] r IH]; intros a n H; cbn [spec_export]; [split; reflexivity|].
+  cbn [existsb fst] in H. apply orb_false_iff in H as [H1 H2].
+  destruct (IH (spec_export1 fx a m v) n H2) as [E1 E2]. rewrite E1, E2.
+  unfold spec_export1, spec_setenv1, vget. destruct (fx_export fx); cbn [vars acwd]; now rewrite aget_aset, H1.
+Qed.
+
+Lemma combine_names n ns : forall (l : list str), existsb (fun m => str_eqb m n) ns = false ->
+  existsb (fun p : str * str => str_eqb (fst p) n) (combine ns l) = false.
+Proof.
+  induction ns as [|m r IH]; intros l H; [reflexivity|]. destruct l as [|x l]; [reflexivity|].
+  cbn in *. apply orb_false_iff in H as [H1 H2]. rewrite H1. cbn. now apply IH.
+Qed.
+
+Lemma spec_step_pwd fx w a o : pwd_ok a -> touches s_PWD o = false -> pwd_ok (fst (spec_step fx w a o)).
+Proof.
+  unfold pwd_ok. intros P T. destruct o as [ps|ps prog args|ps|n|ps names line|arg|n]; cbn [spec_step fst touches] in *; try assumption.
+  - destruct (spec_assign_keep (map asg_pair ps) a s_PWD) as [E1 E2]; [now rewrite existsb_map_eq|]. now rewrite E1, E2.
+  - destruct (spec_export_keep fx (map asg_pair ps) a s_PWD) as [E1 E2]; [now rewrite existsb_map_eq|]. now rewrite E1, E2.
+  - unfold spec_unset1, vget; cbn [vars acwd]. rewrite aget_adel, T. exact P.
+  - unfold spec_read. destruct (spec_assign_keep (combine (read_names names)
+        (cut_fields (spec_seps a (map asg_pair ps)) (length (read_names names)) (Some (input_line line)))) a s_PWD) as [E1 E2];
+      [now apply combine_names|]. now rewrite E1, E2.
+  - unfold spec_cd. destruct (cd_target a arg) as [full|]; [|exact P]. destruct (resolve w full) as [d|]; [|exact P].
+    destruct (str_eqb (acwd a) d); [exact P|]. cbn [fst]. unfold vget, spec_setenv1; cbn [vars acwd].
+    now rewrite aget_aset, str_eqb_refl.
+Qed.
+
+Lemma spec_hist_pwd fx w : forall ops a, pwd_ok a -> forallb (fun o => negb (touches s_PWD o)) ops = true ->
+  pwd_ok (fst (spec_hist fx w a ops)).
+Proof.
+  induction ops as [|o r IH]; intros a P T; cbn [spec_hist forallb] in *; [exact P|].
+  apply andb_true_iff in T as [T1 T2]. apply negb_true_iff in T1.
+  pose proof (spec_step_pwd fx w a o P T1) as P1. destruct (spec_step fx w a o) as [a1 so]. cbn [fst] in P1.
+  specialize (IH a1 P1 T2). destruct (spec_hist fx w a1 r) as [a2 sos]. exact IH.
+Qed.
+
+Theorem pwd_follows_cwd fx w c ops :
+  NoDup (map fst (envp c)) -> forallb wf_op ops = true -> known_hist fx w (abs c) ops = false ->
+  aget (envp c) s_PWD = Some (cwd c) -> forallb (fun o => negb (touches s_PWD o)) ops = true ->
+  let c' := fst (run_hist fx w c (map render ops)) in expand_lookup c' s_PWD = Some (cwd c').
+Proof.
+  intros H1 H2 H3 HP HT. destruct (partial_from_abs fx w c ops H1 H2 H3) as [_ HR].
+  assert (P0 : pwd_ok (abs c)).
+  { unfold pwd_ok, abs, vget; cbn [vars acwd]. now rewrite aget_app, aget_map_tag, HP. }
+  pose proof (spec_hist_pwd fx w ops (abs c) P0 HT) as P. cbv zeta.
+  destruct HR as (R1 & _ & _ & R4 & _). unfold expand_lookup. rewrite (R1 s_PWD), P, R4. reflexivity.
+Qed.
+
+(* ------------------------------------------------------------------ after the three proposed repairs *)
+(** With export removing the shell-local binding, an exported IFS never has a stale local
+    value behind it; with all three repairs no known class is left. *)
+Definition shadow_free (a : ast) : Prop := is_exported a s_IFS = true -> aget (ghost a) s_IFS = None.
+
+Lemma assign1_shadow_free a m v : shadow_free a -> shadow_free (spec_assign1 a m v).
+Proof.
+  unfold shadow_free, spec_assign1, is_exported, vget; cbn [vars ghost]. intros H. rewrite aget_aset.
+  sdes m s_IFS; [|exact H]. intro E. apply H. destruct (aget (vars a) s_IFS) as [[x [|]]|]; congruence.
+Qed.
+
+Lemma assign_shadow_free ps : forall a, shadow_free a -> shadow_free (spec_assign a ps).
+Proof. induction ps as [|[m v] r IH]; intros a H; cbn; [exact H|]. apply IH. now apply assign1_shadow_free. Qed.
+
+Lemma export1_shadow_free fx a m v : fx_export fx = true -> shadow_free a -> shadow_free (spec_export1 fx a m v).
+Proof.
+  intros F H. unfold shadow_free, spec_export1, is_exported, vget in *. rewrite F; cbn [vars ghost].
+  rewrite aget_aset, aget_adel. sdes m s_IFS; [reflexivity|exact H].
+Qed.
+
+Lemma export_shadow_free fx ps : fx_export fx = true -> forall a, shadow_free a -> shadow_free (spec_export fx a ps).
+Proof. intro F. induction ps as [|[m v] r IH]; intros a H; cbn; [exact H|]. apply IH. now apply export1_shadow_free. Qed.
+
+Lemma step_shadow_free fx w a o : fx_export fx = true -> shadow_free a -> shadow_free (fst (spec_step fx w a o)).
+Proof.
+  intros F H. destruct o as [ps|ps prog args|ps|n|ps names line|arg|n]; cbn [spec_step fst]; try assumption.
+  - now apply assign_shadow_free.
+  - now apply export_shadow_free.
+  - unfold shadow_free, spec_unset1, is_exported, vget in *; cbn [vars ghost]. rewrite !aget_adel.
+    sdes n s_IFS; [discriminate|exact H].
+  - unfold spec_read. now apply assign_shadow_free.
+  - unfold spec_cd. destruct (cd_target a arg) as [full|]; [|exact H]. destruct (resolve w full) as [d|]; [|exact H].
+    destruct (str_eqb (acwd a) d); [exact H|]. cbn [fst].
+    unfold shadow_free, spec_setenv1, is_exported, vget in *; cbn [vars ghost].
+    rewrite aget_aset. change (str_eqb s_PWD s_IFS) with false. cbn iota. intro E. specialize (H E).
+    destruct (aget (vars a) s_PWD) as [[x [|]]|]; [exact H| |].
+    + rewrite aget_aset. change (str_eqb s_PWD s_IFS) with false. exact H.
+    + rewrite aget_adel. change (str_eqb s_PWD s_IFS) with false. exact H.
+Qed.
+
+Definition fx_all : fixes := mkfx true true true.
+
+Lemma known_none_all a o : shadow_free a -> known fx_all a o = None.
+Proof.
+  intro H. destruct o as [ps|ps prog args|ps|n|ps names line|arg|n]; cbn [known fx_all fx_read fx_cd]; try reflexivity.
+  - unfold shadow_free, is_exported in H. destruct (aget (map asg_pair ps) s_IFS); [reflexivity|].
+    destruct (vget a s_IFS) as [[ev [|]]|]; try reflexivity. now rewrite (H eq_refl).
+  - destruct arg; reflexivity.
+Qed.
+
+Lemma known_hist_none_all w : forall ops a, shadow_free a -> known_hist fx_all w a ops = false.
+Proof.
+  induction ops as [|o r IH]; intros a H; cbn [known_hist]; [reflexivity|].
+  unfold is_known. rewrite (known_none_all a o H). cbn [orb]. apply IH. now apply step_shadow_free.
+Qed.
+
+Theorem full_after_repairs w c ops :
+  NoDup (map fst (envp c)) -> (aget (envp c) s_IFS <> None -> aget (locals c) s_IFS = None) ->
+  forallb wf_op ops = true ->
+  Forall2 obs_ok (snd (spec_hist fx_all w (abs c) ops)) (snd (run_hist fx_all w c (map render ops))).
+Proof.
+  intros H1 HS H2. apply (partial_from_abs fx_all w c ops H1 H2). apply known_hist_none_all.
+  unfold shadow_free, is_exported, abs, vget; cbn [vars ghost]. rewrite aget_app, aget_map_tag.
+  destruct (aget (envp c) s_IFS) as [v|]; [intros _; apply HS; discriminate|].
+  rewrite aget_map_tag. destruct (aget (locals c) s_IFS); discriminate.
 Qed.
